@@ -141,6 +141,12 @@ class StrV:
         self.s = s
 
 
+class HostFn:
+    """a function value implemented by the rule (used to observe what a driver passes to its closure)"""
+    def __init__(self, f):
+        self.f = f
+
+
 class IterV:
     """an abstract iterator over a known finite list of symbolic items"""
     def __init__(self, items):
@@ -181,6 +187,8 @@ def fn_n(d, name, *vals):
 
 
 def place_get(c, k):
+    if hasattr(c, "place_get"):
+        return c.place_get(k)
     if isinstance(c, MatElem):
         return Sc(c.m.p)
     if isinstance(c, list):
@@ -195,6 +203,8 @@ def place_get(c, k):
 
 
 def place_set(c, k, v):
+    if hasattr(c, "place_set"):
+        return c.place_set(k, v)
     if isinstance(c, MatElem):
         v = unref(v)
         if not isinstance(v, Sc):
@@ -452,6 +462,8 @@ class Interp:
     def call_closure(self, clo, args, e=None):
         if isinstance(clo, FnV):
             return self.call_callee(clo.callee, args, e)
+        if isinstance(clo, HostFn):
+            return clo.f(self, args)
         if not isinstance(clo, Clo):
             self.unsupported("call of non-closure %r" % (clo,), e)
         env = dict(clo.env)
@@ -1036,6 +1048,8 @@ class Interp:
                 if b is not None:
                     return self.call_body(b, [], e)
                 name = c.get("name")
+                if name == "U1" and c.get("path", "").startswith("nalgebra"):
+                    return DimV("1")
                 if name in ("EPSILON",):
                     return Sc(self.dom.named("EPS"))
                 if name in FLOAT_CONSTS:
